@@ -447,10 +447,13 @@ func (E *Engine) VerifyFunc(p *packages.Package, pc *PkgContracts, c *FuncContra
 			if !x.spine {
 				field = c.FreshField[k]
 			}
-			ok, why, used := E.freshResult(p, pc, decl, k, x.spine, field)
+			ok, why, used := E.freshResult(p, pc, decl, k, x.spine, field, x.spine && c.SpineStrict[k])
 			name, text := "fresh", "the result shares no mutable memory with receiver, parameters or package state"
 			if x.spine {
 				name, text = "freshspine", "the returned container (slice/map storage) is newly allocated or one of the arguments, never package state or storage obtained elsewhere; its elements may alias"
+				if c.SpineStrict[k] {
+					name, text = "newspine", "the returned container (slice/map storage) is newly allocated: not package state, not storage obtained elsewhere and not an argument's storage (which would be written through or handed back)"
+				}
 			}
 			o := &Obligation{Name: fmt.Sprintf("%s/%s.r%d", f.key, name, k), Kind: "fresh", Fn: f.key, Pkg: p.PkgPath, Props: c.Props,
 				Text: fmt.Sprintf("%s r%d: %s", name, k, text), Src: fmt.Sprintf("%s:%d", shortPath(c.File), c.Line)}
